@@ -42,9 +42,9 @@ PROPS = {
     },
     "C11": {
         "bundles": ["core"],
-        "fns": {"core": ["RuntimeLimit::applies", "RuntimeLimit::add", "Runtime::dispatch_event", "Runtime::dispatch_all", "Runtime::finish", "Builder::max_itr", "Builder::max_time", "Builder::limit"]},
+        "fns": {"core": ["RuntimeLimit::applies", "RuntimeLimit::add", "Runtime::dispatch_event", "Runtime::dispatch_all", "Runtime::finish", "Runtime::run", "Builder::max_itr", "Builder::max_time", "Builder::limit"]},
         "assumptions": [A_DLL, A_DUR, A_BOUNDS, A_NEW, A_HANDLER, A_CLOCK, A_BUILD, A_DERIVE, "Profiler::finish (Instant::now) leaves `remaining` untouched: assumed"],
-        "not_covered": ["print-only `if !self.quiet {..}` blocks of finish are elided (R7)", "Runtime::run = start; dispatch_all; finish is not extracted (start contains macro_rules)"],
+        "not_covered": ["print-only `if !self.quiet {..}` blocks of finish are elided (R7)", "Runtime::start (prints, profiler, macro_rules, user at_sim_start) is an assumed contract; Runtime::run = start; dispatch_all; finish is proved against it"],
     },
     "C15": {
         "bundles": [], "kani": ["allocarith"], "replay": True,
